@@ -123,6 +123,9 @@ func (c *Ctx) sinsertContract() {
 			found = append(found, paths.Node{F: g.Root, Instr: b.Succs[idx].Instrs[0], Phase: -1})
 		}
 	}
+	// a "found" flag set on the hit branch and tested after the loop: the test's outcome is
+	// determined by the way the flag's phi was reached from the hit branch
+	g.PruneEdge = boolPhiPruner(found)
 	if len(found) == 0 {
 		c.R.Bad(ruleP4, "sinsert:replace-not-append", pos, "the search loop does not branch on equal()")
 	} else if p := g.FindPath(found, nil, func(n paths.Node) bool {
@@ -132,6 +135,7 @@ func (c *Ctx) sinsertContract() {
 	} else {
 		c.R.Ok(ruleP4, "sinsert:replace-not-append", pos, "once equal() found the subscriber the function returns without appending")
 	}
+	g.PruneEdge = nil
 	// the appends are reachable only through the loop's normal exit
 	if p := g.FindPath([]paths.Node{g.Entry()}, func(n paths.Node) bool { return n.F == g.Root && n.Instr == loop.Header.Instrs[0] }, func(n paths.Node) bool { return appSubs(n) }); p != nil {
 		c.R.Bad(ruleP4, "sinsert:append-only-after-search", pos, "a subscriber can be appended without the node's list having been searched for it", c.witness(g, p)...)
